@@ -171,6 +171,7 @@ theorem handler_snap {c : Cfg} {s s' : St} {e : Env} {op : Op} {m : List Msg}
   | expandFlow id a amt en => exact ⟨Or.inl (expandFlow_snap h), fun hne => absurd (expandFlow_wcore h) hne⟩
   | closeFlow id => exact ⟨Or.inl (closeFlow_snap h), fun hne => absurd (closeFlow_wcore h) hne⟩
   | helperDeposit a0 a1 dur => cases h
+  | helperDepositAs x0 x1 a0 a1 dur => cases h
 
 theorem helperDeposit_snap {c : Cfg} {s s' : St} {e : Env} {a0 a1 dur : Nat}
     (h : helperDeposit c s e a0 a1 dur = .ok s') :
